@@ -6,6 +6,7 @@
 From Coq Require Import ZArith.
 From BS Require Import Model.Base Model.Num Model.Arith Model.ExprParser Model.Script Model.Interp Model.LibCore Model.Lint
      Proofs.C08 Proofs.C18 Proofs.C18Sim Proofs.C18Lib.
+From BS Require Proofs.C18SimR Proofs.C18LibR.
 
 (* (1) TOTALITY.  lint_raw makes every dict access `d[k]` of the code an explicit lookup whose failure is the outcome None (KeyError);
    it never happens.  (The shape of statements — exactly one key, required members — is the type [stmt]: schema-valid models.)
@@ -170,9 +171,10 @@ Theorem C18_pointless_expression_has_no_effect : forall cfg lib url_rel lint_lin
 Proof. exact final_pointless_eval. Qed.
 Print Assumptions C18_pointless_expression_has_no_effect.
 
-(* ... hence deleting the statement does not change a run that finishes in the model.  PARTIAL (full clause: both directions, like
-   the label theorem): only original => edited, and a run in which the model declines (OOracle: operand types whose text/arithmetic
-   Model/Interp.v does not reproduce) is not covered; the converse needs fuel for the deleted expression itself. *)
+(* ... hence deleting the statement does not change a run that finishes in the model.  This pair: original => edited only, and a run
+   in which the model declines (OOracle: operand types whose text/arithmetic Model/Interp.v does not reproduce) is not covered.
+   Both directions: C18_pointless_delete / C18_pointless_fn_delete below (the converse needs fuel for the deleted expression itself
+   and the premise that its evaluation does not decline). *)
 Theorem C18_pointless_delete_partial : forall cfg lib url_rel lint_lines,
   c_max cfg = 0%Z -> lib_ok lib true ->
   forall s i, In (WPointless i) (lint s) ->
@@ -187,6 +189,94 @@ Theorem C18_pointless_fn_delete_partial : forall cfg lib url_rel lint_lines,
     pointless e = true /\ run_le cfg lib url_rel lint_lines true s (set_body s k (remove_at i body)).
 Proof. exact final_pointless_fn_delete_partial. Qed.
 Print Assumptions C18_pointless_fn_delete_partial.
+
+(* ---- pointless statement, BOTH directions (Proofs/C18SimR.v: the simulation again, with expression statements allowed on the right
+   only, the right run getting 2f + D fuel).
+   edited => original needs what original => edited did not: the deleted expression is EVALUATED by the original run, so
+   (i) it needs fuel of its own — its depth [edepth e], a pointless expression makes no call — and
+   (ii) its evaluation must not decline: [never_declines e] = whatever the locals and the world, SOME fuel evaluates e to something
+        other than OFuel (a comparison of cyclic / too deep containers runs out of cmp_fuel at every fuel) and OOracle (operand
+        types whose arithmetic / text Model/Interp.v does not reproduce).  By C18_pointless_expression_has_no_effect the
+        evaluation then yields a value and leaves the world as it is.
+   Under (ii) EVERY run of the edited script that does not run out of fuel (ok = false: a run in which the model declines elsewhere
+   is reproduced as well) is the run of the original with fuel 2f + edepth e + 1: same outcome, same observable world.
+   The library premise of this direction, [lib_okR], is [lib_ok] for the world relation of C18SimR (function bodies may differ by
+   right-only expression statements): "the library treats the function table and the counter as opaque"; proved for the library
+   model and the callback toy library below. *)
+Theorem C18_run_ge_means : forall cfg lib url_rel lint_lines ok D c c',
+  C18SimR.run_ge cfg lib url_rel lint_lines ok D c c' <->
+  forall f w o w1, execute_script cfg lib url_rel lint_lines f c w = (o, w1) -> o <> OFuel -> (ok = true -> o <> OOracle) ->
+  exists w1', execute_script cfg lib url_rel lint_lines (2 * f + D) c' w = (o, w1') /\ same_world w1 w1'.
+Proof. intros. reflexivity. Qed.
+Print Assumptions C18_run_ge_means.
+Theorem C18_never_declines_means : forall cfg lib url_rel lint_lines e,
+  C18SimR.never_declines cfg lib url_rel lint_lines e <->
+  forall loc bi um w, exists f, fst (eval cfg lib url_rel lint_lines f e loc bi um w) <> OFuel /\
+                                fst (eval cfg lib url_rel lint_lines f e loc bi um w) <> OOracle.
+Proof. intros. reflexivity. Qed.
+Print Assumptions C18_never_declines_means.
+
+Theorem C18_pointless_delete : forall cfg lib url_rel lint_lines,
+  c_max cfg = 0%Z -> lib_ok lib true -> C18SimR.lib_okR lib false ->
+  forall s i, In (WPointless i) (lint s) ->
+  exists e, nth_error s i = Some (SExpr None e) /\ pointless e = true /\
+    run_le cfg lib url_rel lint_lines true s (remove_at i s) /\
+    (C18SimR.never_declines cfg lib url_rel lint_lines e ->
+     C18SimR.run_ge cfg lib url_rel lint_lines false (S (C18SimR.edepth e)) (remove_at i s) s).
+Proof. exact C18SimR.final_pointless_delete. Qed.
+Print Assumptions C18_pointless_delete.
+
+Theorem C18_pointless_fn_delete : forall cfg lib url_rel lint_lines,
+  c_max cfg = 0%Z -> lib_ok lib true -> C18SimR.lib_okR lib false ->
+  forall s fn i, In (WFnPointless fn i) (lint s) ->
+  exists k args a b body e, nth_error s k = Some (SFunction fn args a b body) /\ nth_error body i = Some (SExpr None e) /\
+    pointless e = true /\
+    run_le cfg lib url_rel lint_lines true s (set_body s k (remove_at i body)) /\
+    (C18SimR.never_declines cfg lib url_rel lint_lines e ->
+     C18SimR.run_ge cfg lib url_rel lint_lines false (S (C18SimR.edepth e)) (set_body s k (remove_at i body)) s).
+Proof. exact C18SimR.final_pointless_fn_delete. Qed.
+Print Assumptions C18_pointless_fn_delete.
+
+(* what a non-declining pointless expression does: beyond its depth, a value and the same world *)
+Theorem C18_pointless_expression_total : forall cfg lib url_rel lint_lines e, pointless e = true ->
+  C18SimR.never_declines cfg lib url_rel lint_lines e ->
+  forall f loc bi um w, (S (C18SimR.edepth e) <= f)%nat -> exists v, eval cfg lib url_rel lint_lines f e loc bi um w = (OVal v, w).
+Proof. exact C18SimR.pointless_total. Qed.
+Print Assumptions C18_pointless_expression_total.
+
+(* premise (ii) is met by every expression made of literals, variables, parentheses, unary operators, && and || (for every library,
+   world and locals); arithmetic and comparison operators are where the model can decline *)
+Theorem C18_logic_only_never_declines : forall cfg lib url_rel lint_lines e, C18LibR.logic_only e = true ->
+  pointless e = true /\ C18SimR.never_declines cfg lib url_rel lint_lines e.
+Proof.
+  intros cfg lib url_rel lint_lines e H. split; [apply C18LibR.logic_only_pointless; exact H|apply C18LibR.logic_only_never_declines; exact H].
+Qed.
+Print Assumptions C18_logic_only_never_declines.
+(* ... and it is a real premise in the MODEL: `2 ** -1` is pointless, yet Model/Interp.v declines to evaluate it (a negative int power
+   is left to libm) in every world at every fuel; the script made of that statement alone ends OOracle, the edited one returns null *)
+Theorem C18_never_declines_is_a_real_premise : forall cfg lib url_rel lint_lines,
+  let e := EBin (U "**") (ENum (NInt 2)) (ENum (NInt (-1))) in
+  pointless e = true /\
+  (forall f loc bi um w, fst (eval cfg lib url_rel lint_lines f e loc bi um w) = OFuel \/
+                         fst (eval cfg lib url_rel lint_lines f e loc bi um w) = OOracle) /\
+  ~ C18SimR.never_declines cfg lib url_rel lint_lines e.
+Proof. exact C18LibR.pow_neg_declines. Qed.
+Print Assumptions C18_never_declines_is_a_real_premise.
+(* non-vacuity: a warning whose statement satisfies every premise of the converse *)
+Example C18_pointless_delete_example :
+  let e := EBin (U "||") (EUn (U "!") (EVar (U "x"))) (EGroup (ENum (NInt 1))) in
+  let s := [SExpr None e; SExpr (Some (U "y")) (ENum (NInt 2))] in
+  In (WPointless 0) (lint s) /\ C18LibR.logic_only e = true /\ C18SimR.edepth e = 2%nat /\
+  remove_at 0 s = [SExpr (Some (U "y")) (ENum (NInt 2))].
+Proof. vm_compute. repeat split; tauto. Qed.
+
+(* the library premise of the converse holds for the library model and for the library that calls back *)
+Theorem C18_libcore_meets_the_converse_premise : forall cfg ok, C18SimR.lib_okR (libcore cfg) ok.
+Proof. exact C18LibR.libcore_lib_okR. Qed.
+Print Assumptions C18_libcore_meets_the_converse_premise.
+Theorem C18_converse_lib_premise_satisfiable : forall ok, C18SimR.lib_okR toy_lib ok.
+Proof. exact C18LibR.toy_lib_okR. Qed.
+Print Assumptions C18_converse_lib_premise_satisfiable.
 
 (* the premise on the library holds for the library model the interpreter checks run (Model/LibCore.v: it never looks at the
    function table or the counter), and for a library that calls back into script functions *)
